@@ -4,8 +4,28 @@ header size (a multiple of 1024), followed by interleaved samples."""
 import numpy as np
 
 
-def header(nchan, nsamp, coding="pcm", nbytes=2, order="01", hdrsize=1024, rate=8000, extra=()):
+def filler(nbytes):
+    """optional fields ('name -sN value' lines) occupying exactly nbytes bytes including their newlines"""
+    out, left, k = [], nbytes, 0
+    while left > 0:
+        take = left if left < 60 else (30 if left < 90 else 45)   # never leave a remainder too short for a line
+        name = "xfield%03d" % k
+        n = take - len(name) - len(" -s00 ") - 1
+        if n < 1:
+            raise ValueError("filler too short")
+        out.append("%s -s%02d %s" % (name, n, "v" * n))
+        left -= take
+        k += 1
+    assert sum(len(l) + 1 for l in out) == nbytes
+    return out
+
+
+def header(nchan, nsamp, coding="pcm", nbytes=2, order="01", hdrsize=1024, rate=8000, extra=(), lead=0):
+    """lead > 0: that many bytes of optional fields before the mandatory ones (pushes them towards / across a
+    1024-byte block boundary of an extended header)"""
     lines = ["NIST_1A", "%7d" % hdrsize]
+    if lead:
+        lines += filler(lead)
     fields = ["channel_count -i %d" % nchan, "sample_count -i %d" % nsamp, "sample_rate -i %d" % rate, "sample_n_bytes -i %d" % nbytes]
     if order:
         fields.append("sample_byte_format -s%d %s" % (len(order), order))
